@@ -264,7 +264,7 @@ def serialize (q : Q) : Serialized := ⟨q.cls.name, getConfig q⟩
     resolve the class name among the module's classes, then `cls.from_config(config)` -/
 def getQuantizerDict (d : Serialized) : Except Err Q :=
   match lookup d.className with
-  | Option.none => .error .valueError
+  | Option.none => .error .unknownName   -- Keras-version dependent; tf_keras hands the name back
   | some c => fromConfig c d.config
 
 /-- the arguments the rebuilt quantizer is constructed from: a serialised key carries the
